@@ -260,6 +260,56 @@ def kinds():
     reg("NamedCallResult", NamedCallResult, {
         "axes": [E.axes(2)], "tags": [E.tags], "_container": [calls],
         "name": [menu(("_", 0), ("_", 0))]})
+
+    # calls to hand-written loopy kernels (two fixed callees; translation units are opaque to the solver)
+    import loopy as lp
+    from pytato.loopy import LoopyCall, LoopyCallResult
+
+    def rowsum(scale=2):
+        return lp.make_kernel(
+            "{[i,j]: 0<=i<3 and 0<=j<4}", f"out[i] = sum(j, {scale}*a[i,j]) + b[i]",
+            [lp.GlobalArg("a", shape=(3, 4), dtype=np.float64), lp.GlobalArg("b", shape=(3,), dtype=np.float64),
+             lp.GlobalArg("out", shape=(3,), dtype=np.float64, is_input=False)],
+            name="rowsum", lang_version=(2018, 2), target=lp.ExecutableCTarget())
+    tu0, tu0c, tu1 = rowsum(), rowsum(), rowsum(3)
+
+    def with_callee(factor):
+        """entrypoint 'rowsum' calling a callee kernel 'scale'; units differ only in the callee"""
+        callee = lp.make_function(
+            "{[k]: 0<=k<4}", f"y[k] = {factor}*x[k]",
+            [lp.GlobalArg("x", shape=(4,), dtype=np.float64), lp.GlobalArg("y", shape=(4,), dtype=np.float64, is_input=False)],
+            name="scale", target=lp.ExecutableCTarget())
+        entry = lp.make_kernel(
+            "{[i,j,k]: 0<=i<3 and 0<=j<4 and 0<=k<4}",
+            ["for i", "    t[i, :] = scale(a[i, :])", "    out[i] = sum(j, t[i, j]) + b[i]", "end"],
+            [lp.GlobalArg("a", shape=(3, 4), dtype=np.float64), lp.GlobalArg("b", shape=(3,), dtype=np.float64),
+             lp.TemporaryVariable("t", shape=(3, 4), dtype=np.float64),
+             lp.GlobalArg("out", shape=(3,), dtype=np.float64, is_input=False)],
+            name="rowsum", lang_version=(2018, 2), target=lp.ExecutableCTarget())
+        return lp.merge([entry, callee])
+    try:
+        tum2, tum2c, tum3 = with_callee(2), with_callee(2), with_callee(3)
+        multi = [(tum2, 2), (tum2c, 2), (tum3, 3)]
+    except Exception:  # noqa: BLE001
+        multi = []
+    b3 = pt.make_placeholder("b3", (3,), np.float64)
+    b3c = pt.make_placeholder("b3", (3,), np.float64)
+    c3 = pt.make_placeholder("c3", (3,), np.float64)
+    lbnd = menu((constantdict({"a": E.X, "b": b3}), 0), (constantdict({"b": b3c, "a": E.Xc}), 0),
+                (constantdict({"a": E.Y, "b": b3}), 1), (constantdict({"a": E.X, "b": c3}), 2))
+    reg("LoopyCall", LoopyCall, {
+        "tags": [E.tags], "translation_unit": [menu((tu0, 0), (tu0c, 0), (tu1, 1), *multi)], "bindings": [lbnd],
+        "entrypoint": [V("fixed", menu=["rowsum"])]},
+        make=lambda vals: LoopyCall(translation_unit=vals["translation_unit"], bindings=vals["bindings"],
+                                    entrypoint=vals["entrypoint"], tags=vals["tags"]))
+    lc0 = LoopyCall(translation_unit=tu0, bindings=lbnd.menu[0], entrypoint="rowsum", tags=frozenset())
+    lcalls = menu((lc0, 0), (LoopyCall(translation_unit=tu0c, bindings=lbnd.menu[1], entrypoint="rowsum", tags=frozenset()), 0),
+                  (LoopyCall(translation_unit=tu0, bindings=lbnd.menu[2], entrypoint="rowsum", tags=frozenset()), 1),
+                  (LoopyCall(translation_unit=tu1, bindings=lbnd.menu[0], entrypoint="rowsum", tags=frozenset()), 2),
+                  *[(LoopyCall(translation_unit=t_, bindings=lbnd.menu[0], entrypoint="rowsum", tags=frozenset()), 10 + l_)
+                    for t_, l_ in multi])
+    reg("LoopyCallResult", LoopyCallResult, {
+        "axes": [E.axes(1)], "tags": [E.tags], "_container": [lcalls], "name": [V("fixed", menu=["out"])]})
     return E, K
 
 
@@ -478,7 +528,7 @@ def coverage_side() -> JobOut:
     concrete = {c for c in subs(A.Array) if not getattr(c, "__abstractmethods__", None) and c.__module__.startswith("pytato")
                 and "_mapper_method" in dir(c)}
     uncovered = sorted(c.__name__ for c in concrete - known
-                       if c.__name__ not in ("DataWrapper", "LoopyCallResult", "IndexBase", "IndexRemappingBase",
+                       if c.__name__ not in ("DataWrapper", "IndexBase", "IndexRemappingBase",
                                              "InputArgumentBase", "SparseMatmul", "Array"))
     sides.append(Side("kinds-covered", not uncovered, {"uncovered": uncovered}))
     return JobOut(sides=sides)
@@ -524,7 +574,7 @@ def jobs(tier: str, seed: int):
                    "nesting": WRAPS if th else ["none", "il", "diamond", "deep"],
                    "base configurations per field": 2},
         "outside": ["a second interpreter with a different hash seed (process state; no solver handle)",
-                    "LoopyCall/LoopyCallResult (translation units are opaque to the solver)",
+                    "LoopyCall translation units varied only between fixed kernels (opaque to the solver)",
                     "simultaneous variation of two fields"],
     }
     return J, meta
